@@ -47,7 +47,7 @@ theorem loop_refusal {cfg : Cfg} {vs : List View} (wf : GroupWF cfg vs) (hne : v
     · rename_i hend
       rw [if_neg hend] at hg
       refine ⟨by simpa using hend, ?_⟩
-      have hstep := step_sim wf hne hinv hrel ai hp.elem
+      have hstep := group_step_sim wf hne hinv hrel ai hp.elem
       cases he : evalSingleArgument cfg H ai with
       | ok x =>
         obtain ⟨H', ai', r⟩ := x
@@ -66,7 +66,7 @@ theorem loop_refusal {cfg : Cfg} {vs : List View} (wf : GroupWF cfg vs) (hne : v
           | ok ai'' =>
             rw [hs] at hi hg
             simp only [Res.bind_ok] at hi hg
-            exact ⟨ai'', rfl, ih H' ms' ai'' hinv' hrel' (step_plain hp' hs) hi hg⟩
+            exact ⟨ai'', rfl, ih H' ms' ai'' hinv' hrel' (plain_step hp' hs) hi hg⟩
           | throw e =>
             rw [hs] at hi hg
             have h1 : e = .invalid_argument := by simpa using hi
